@@ -9,6 +9,11 @@
       both cases).  The client is deterministic and reads one byte at a time, so an adaptive server is
       covered: its behaviour against this client *is* one such stream.
     * `wfail`  — the write (flush of `smtpto`) that fails, if any (`safewrite` → `dropped()`).
+                 For a write inside `blast()` the script says on which side of the statement
+                 `flagcritical = 1` it happens (`body` before, `final` after): the 1024-byte buffering of
+                 `smtpto` is not modelled, so *which bytes* such a write carries is not known to the
+                 model. The driver's oracle does not trust this label: it decides from the bytes of the
+                 attempted write whether it carries the end of the message (`Spec.RemoteVerdict.critWrite`).
 
   Two layers:
     * `frames`  — how `smtpcode()` delimits replies in the stream (byte automaton `cnext`, one state
@@ -80,6 +85,8 @@ def said (t : Bytes) : Bytes :=
 
 /-! ### reports -/
 
+/-- the writes of the conversation. `body` / `final`: a flush inside `blast()` while `flagcritical` is
+    still 0 / after it was set to 1 (the flush after the terminating dot is always `final`) -/
 inductive WPoint | helo | mail | rcpt (i : Nat) | data | body | final | quit
   deriving DecidableEq, Repr
 
@@ -97,12 +104,14 @@ structure Script where
 
 /-- outcome: per-recipient reports (in emission order), the final report, what the server received.
     `wireOpen`: `wire` may be followed by a prefix of the encoded body (buffer-full flushes of `smtpto`
-    before the run stopped; the 1024-byte buffering is not modelled). -/
+    before the run stopped; the 1024-byte buffering is not modelled).
+    `quit`: `quit()` was reached and its QUIT was written. -/
 structure Res where
   rcpt : List Bytes
   msg : Bytes
   wire : Bytes
   wireOpen : Bool := false
+  quit : Bool := false
 
 def dupMark : Bytes := lit "Possible duplicate! "
 
@@ -117,10 +126,12 @@ def tempNoconnRep : Bytes := lit "ZSorry, I wasn't able to establish an SMTP con
 
 def notLike : Bytes := lit " does not like recipient.\n"
 
-/-- `quit(prepend,append)`: the QUIT write may itself fail (it goes through `safewrite`) -/
+/-- `quit(prepend,append)`: the QUIT write goes through `safewrite` like every other write, so when it
+    fails `dropped()` runs and the verdict `prepend … append` that had been decided is never printed
+    (open finding C09-quit-write-failure, notes/C09.md; `Props.C09.C09_quit_corner`) -/
 def quitWith (a : Args) (wf : Option WPoint) (rs : List Bytes) (w : Bytes) (pre app txt : Bytes) : Res :=
   if wf = some .quit then { rcpt := rs, msg := droppedRep a.host false, wire := w }
-  else { rcpt := rs, msg := pre ++ a.host ++ app ++ lit ".\n" ++ said txt, wire := w ++ lit "QUIT\r\n" }
+  else { rcpt := rs, msg := pre ++ a.host ++ app ++ lit ".\n" ++ said txt, wire := w ++ lit "QUIT\r\n", quit := true }
 
 def lost (a : Args) (rs : List Bytes) (w : Bytes) (crit : Bool) (wopen : Bool := false) : Res :=
   { rcpt := rs, msg := droppedRep a.host crit, wire := w, wireOpen := wopen }
